@@ -258,7 +258,9 @@ async def run_case(case):
             final_tasks.append([True] + result_code(t) + [b])
         rev = {id(t): i for i, t in table.items()}
         names = []
-        for name, tsk in sorted(Function.unique_name2task.items()):
+        for key, tsk in sorted(Function.unique_name2task.items(), key=lambda kv: str(kv[0])):
+            # keys are "ctx.name" strings, or (ctx, name) pairs once the D17 repair is in
+            name = ".".join(key) if isinstance(key, tuple) else key
             if name.startswith("file.c14.n"):
                 names.append([int(name[len("file.c14.n"):]), rev.get(id(tsk), -1)])
             else:
